@@ -196,7 +196,10 @@ def cooked_units(forest):
 
 # ------------------------------------------------- specification / abstract_origin chains
 INHERITABLE = [("decl_line", "data1"), ("decl_line", "udata"), ("decl_column", "data1"), ("external", "flag"), ("linkage_name", "string"),
-               ("accessibility", "data1"), ("byte_size", "data1"), ("artificial", "flag"), ("inline", "data1"), ("prototyped", "flag"), ("alignment", "udata")]
+               ("accessibility", "data1"), ("byte_size", "data1"), ("artificial", "flag"), ("inline", "data1"), ("prototyped", "flag"), ("alignment", "udata"),
+               # vendor attributes and the standard ones they share the low byte of their code with (0x2117 / 0x17, 0x2134 / 0x34, 0x2107 / 0x07...)
+               ("GNU_all_call_sites", "flag"), ("visibility", "data1"), ("GNU_pubnames", "flag"), ("GNU_all_tail_call_sites", "flag"), ("discr_value", "data1"),
+               ("MIPS_linkage_name", "string"), ("GNU_vector", "flag"), ("GNU_deleted", "flag")]
 
 
 def rand_inh_attrs(rng, version, with_name, forbid=()):
@@ -209,7 +212,7 @@ def rand_inh_attrs(rng, version, with_name, forbid=()):
         v = rng.randint(0, 200) if f in ("data1", "udata") else (rng.random() < 0.5 if f == "flag" else b"_Zx%d" % rng.randint(0, 99))
         if a in ("accessibility",):
             v = rng.randint(1, 3)
-        if a == "inline":
+        if a in ("inline", "visibility"):
             v = rng.randint(0, 3)
         attrs.append((a, f, v))
     return attrs
